@@ -8,7 +8,7 @@ src = "%s/%s/%s" % (os.environ.get("SEEDSRC", "/tmp/seed-out"), prop, var)
 dst = "/verif/seeded/%s-%s" % (prop, os.environ.get("SEEDNAME", var))
 os.makedirs(dst, exist_ok=True)
 for f in os.listdir(src):
-    if f in ("patch.diff", "notes.md", "build_and_run.sh") or f.startswith("demo"):
+    if f in ("patch.diff", "notes.md", "build_and_run.sh") or f.startswith("demo") or f.startswith("patch-"):
         shutil.copy(os.path.join(src, f), dst)
 conf = open(os.path.join(src, "confirm.txt")).read() if os.path.exists(os.path.join(src, "confirm.txt")) else ""
 def g(k):
@@ -25,7 +25,7 @@ meta = {
     "property": prop,
     "variant": os.environ.get("SEEDNAME", var),
     "origin": "fresh sub-agent given only the property text and a scratch worktree of /repo",
-    "round": 4 if os.environ.get("SEEDSRC", "").endswith("seed4") else 3 if os.environ.get("SEEDSRC", "").endswith("seed3") else 2 if os.environ.get("SEEDSRC", "").endswith("seed2") else 1,
+    "round": 5 if os.environ.get("SEEDSRC", "").endswith("seed5") else 4 if os.environ.get("SEEDSRC", "").endswith("seed4") else 3 if os.environ.get("SEEDSRC", "").endswith("seed3") else 2 if os.environ.get("SEEDSRC", "").endswith("seed2") else 1,
     "needs_to_manifest": needs,
     "confirmed_by_me": {
         "worktree": "scratch worktree of /repo HEAD under /tmp/cf (removed afterwards)",
